@@ -32,7 +32,7 @@ MANIFEST = {
         "design_ref": "DESIGN.md 3/C15",
     }
 }
-PROPS = ["Nstd.Json.Props", "Nstd.Json.LemmasTables"]
+PROPS = ["Nstd.Json.Props", "Nstd.Json.LemmasTables", "Nstd.Json.PropsGen"]
 LEAN_TARGETS = PROPS + ["drv_json"]
 DRIVER = "drv_json"
 HARNESS_SOURCES = ["json.cpp", "src/Document/Json.cpp", "src/String.cpp", "src/Variant.cpp", "src/Error.cpp", "src/Memory.cpp"]
